@@ -90,7 +90,8 @@ class ConstructMonitor(Monitor):
                 violation(["C04"], self.name, "rejects-clash-free-records", observed=val, **w)
                 return
             want_t = a.DuplicateURIPrefixes if uri_cl else a.DuplicatePrefixes
-            if type(val) is not want_t:
+            other_t = a.DuplicatePrefixes if uri_cl else a.DuplicateURIPrefixes
+            if not isinstance(val, want_t) or isinstance(val, other_t):
                 violation(
                     ["C04"], self.name, "wrong-duplicate-error-type",
                     expected=want_t.__name__, observed=val, uri_clashes=sorted(uri_cl),
@@ -102,15 +103,21 @@ class ConstructMonitor(Monitor):
             dups = getattr(val, "duplicates", None) or []
             got = {d.prefix for d in dups}
             bad = []
+            listed = set()
+            f = spec.all_u if side == "uri" else spec.all_p
             for d in dups:
                 r1, r2 = spec.rec_of(d.record_1), spec.rec_of(d.record_2)
-                f = spec.all_u if side == "uri" else spec.all_p
                 if not (d.prefix in f(r1) and d.prefix in f(r2) and d.record_1 is not d.record_2):
                     bad.append(d.prefix)
-            if got != want or bad:
+                listed.update({spec.norm(r1), spec.norm(r2)})
+            # "listing the clashing records": every record involved in a clash on that side is named, every summary
+            # is a real clash, and no string is reported that does not clash (how many summaries per pair is not promised)
+            involved = {spec.norm(recs[i]) for s_, i, j, x in cl if s_ == side for i in (i, j)}
+            if bad or not got <= want or not involved <= listed:
                 violation(
                     ["C04"], self.name, "duplicate-summary-incomplete-or-wrong",
-                    expected=sorted(want), observed=sorted(got), unreal=bad, **w,
+                    clashing_strings=sorted(want), reported_strings=sorted(got), unreal=bad,
+                    clashing_records_not_listed=[list(map(probe.jsonable, x)) for x in involved - listed], **w,
                 )
             return
         # constructed
